@@ -156,7 +156,7 @@ func pluginPaths(r *Run, it Item) {
 	opq["(*hotline.ClientConn).NewErrReply"] = true
 	setup := pathsSetup(filepath.Join(r.Root, "spec", "paths.spec"))
 	handler := strings.HasPrefix(key, "mobius.Handle")
-	fr := r.Eng.verifyFuncOpts(key, RunOpts{Trace: true, Depth: 1, Over: pathsOver(), Opaque: opq, Setup: func(x *Exec) {
+	fr := r.Eng.verifyFuncOpts(key, RunOpts{Trace: true, Depth: 1, Over: pathsOver(), Opaque: opq, PreTaggedOnly: handler, Setup: func(x *Exec) {
 		if handler {
 			handlerSetup(x)
 		}
